@@ -31,6 +31,11 @@ CHECKS.update({
          "Every symbol sequence up to the length bound over a 34-symbol hostile alphabet and every truncation/deletion/duplication/insertion of every corpus program is compiled: it must terminate, return a tree xor a positioned SyntaxError, returned trees must be complete and the rendered error must quote a line of the source.",
          "Trusted: hang watchdog (20 s vs microseconds), completeness walker. Longer inputs and symbols outside the alphabet are not covered.",
          "DESIGN.md §4 C05"),
+ "C06": ("model_checking",
+         "explicit-state BFS over symbol-table histories replayed on fresh real VMs (E2) + bounded exhaustive program enumeration (E1)",
+         "Breadth-first search over all begin/end/declare/declare-const/assign histories on the real symbol table up to the length bound, each state rebuilt by replaying its history on a fresh runtime.VM and compared (step error codes, both lookups, depth, live symbols) with a stack-of-maps model; plus every statement tree up to the node bound over 17 name actions in 6 block kinds (incl. method calls, handled exceptions, recursion) against the reference interpreter, with scope and call depth required to be back to zero after the run.",
+         "Trusted: the stack-of-maps model and the reference interpreter (lexical block scoping as the property states). Runs that depend on dynamic scoping are skipped and counted.",
+         "DESIGN.md §4 C06"),
 })
 NOT_YET = {}
 props = [json.loads(l) for l in open(f"{V}/properties.jsonl")]
